@@ -343,6 +343,22 @@ for _k, _v in {
     "C16": " Also: parse_expr returns only type-checked trees (typed-tree), the invariant the counted typing unwraps rest on.",
 }.items():
     ADDED[_k] = (ADDED.get(_k, "") + _v).strip()
+# round 17 and the observations triaged after it (session 7)
+for _k, _v in {
+    "C01": " Also: the operand-order and parking clauses of the binary operators (operand-order, shared with C15 / C09.operands).",
+    "C02": " Also: a call through a dot chain passes the object only to a method (method-self); `K? ?= nil` is accepted as the assignment it is; compound operators are read from their spelling.",
+    "C10": " Also: every operator whose code stores into its left operand satisfies a condition under which the const test of the root is taken (storing-operator, per Op variant, by evaluation); "
+           "root_ident follows a path of any length (root-ident-depth).",
+    "C12": " Also: the parking / order clauses of `==` / `!=` with a nil operand (nil-test).",
+    "C13": " Also: the identity of a list is its cell, not its buffer (list-identity).",
+    "C14": " Also: floor / ceil / round / ipart / fpart are evaluated on 7.5, -7.5, -2.0 with std's f64 operations modelled exactly (float-parts).",
+    "C15": " Also: the Pratt infix callback hands each operand to its own side of Expr::BinOp (source-order|infix-operands).",
+    "C16": " Also: PEG ordered choices are free of exponential re-reading - no later alternative is a leading primary of an earlier one, no two alternatives share a literal + recursive-rule prefix "
+           "(backtracking, 100+ pairs judged); an index into a map never takes the list path (index-dispatch).",
+    "C17": " Also: nothing bounds the interpreter's recursion (depth|interpreter-recursion: known finding).",
+    "C19": " Also: call_lib hands on any symbol name (symbol|call_lib|name, evaluated on dotted / mangled / non-ASCII names).",
+}.items():
+    ADDED[_k] = (ADDED.get(_k, "") + _v).strip()
 # rounds 15 / 16 and the observations triaged after them (session 7)
 for _k, _v in {
     "C01": " Also: the folder drops no operand that would run (fold-keeps-operands, shared with C15); statement keywords of the grammar are words (keyword-boundary).",
